@@ -276,7 +276,8 @@ def programs(tier):
         for b in bodies_plain:
             for e in small_plain: cs.append(("if", b, e))
         for b in bodies_loop: cs.append(("while", b))
-        for b in small_loop: cs.append(("whiletrue", b))
+        # `while True` bodies of up to two statements, so that "assign, then break" shapes occur
+        for b in (bodies_loop if len(bodies_loop) < 200 else small_loop): cs.append(("whiletrue", b))
         for b in small_loop: cs.append(("for", b))
         for b in small_plain: cs.append(("iffalse", b))
         return cs
